@@ -21,8 +21,8 @@ import (
 	"github.com/zclconf/go-cty/cty/convert"
 
 	"verif/engine"
-	"verif/vfmt"
 	"verif/ref/refjson"
+	"verif/vfmt"
 )
 
 type Data struct {
@@ -58,9 +58,9 @@ func corpus() []string {
 	}
 	docs = append(docs, strings.Repeat("[", 64)+strings.Repeat("]", 64))
 	docs = append(docs, strings.Repeat(`{"a":`, 32)+"1"+strings.Repeat("}", 32))
-	docs = append(docs, "1"+strings.Repeat("0", 80))                  // 81-digit integer: exactly representable in 512 bits
-	docs = append(docs, "0."+strings.Repeat("3", 300))                // long fraction: rounded to nearest
-	docs = append(docs, strings.Repeat("9", 600))                     // 600-digit integer: not representable
+	docs = append(docs, "1"+strings.Repeat("0", 80))                   // 81-digit integer: exactly representable in 512 bits
+	docs = append(docs, "0."+strings.Repeat("3", 300))                 // long fraction: rounded to nearest
+	docs = append(docs, strings.Repeat("9", 600))                      // 600-digit integer: not representable
 	docs = append(docs, "1e999999999", "-1e999999999", "1e-999999999") // extreme exponents
 	return docs
 }
